@@ -24,6 +24,14 @@ def scenarios(rng, tier):
         session(rng, body, 0, cfg, st, n_ops=rng.choice([10, 30, 60]), noise=rng.choice([0.05, 0.3, 0.9]), icon_len=len(icon or b''))
         for j, junk in enumerate(('a5', '00', '3c') if k % 2 == 0 else ('a5', 'ff')):
             s.start('wf_%d~%d' % (k, j)); s.op('junk', junk); s.lines += body.lines
+    # full QueryResp / large-TLV responses at every residue of the MTU (count and length words against the real frame length)
+    for k in range(10 if tier == 'quick' else 80):
+        mtu = rng.choice([1492, 1493, 592, 593]) if k % 2 else 576 + rng.randrange(40)
+        cap = (mtu - 34) // 20
+        s.start('full_%d~0' % k); s.lines.append('cfg 0 mtu=%d' % mtu); s.lines.append(gline(icon=bytes(range(256)) * 8))
+        M = mac(1); s.frame(0, discover(M, gen=1))
+        for i in range(cap + rng.choice([0, 1, 2])): s.frame(0, probe(mac(100 + i), OWN0, mac(100 + i), OWN0))
+        s.frame(0, query(M, OWN0, seq=7)); s.frame(0, query(M, OWN0, seq=8)); s.frame(0, qlt(M, OWN0, 14, 0, seq=9)); s.frame(0, qlt(M, OWN0, 14, mtu - 34, seq=10))
     return [(s.text(), {})]
 def project(blk, name, meta):
     if blk.fault: return ('fault',)
